@@ -48,7 +48,8 @@ from runner import Infra, TieBroken
 
 ID = "C13"
 LEAN_MODULES = ["PyYetiVerif.Props.C13", "PyYetiVerif.Props.C13Text", "PyYetiVerif.Props.C13Dmig", "PyYetiVerif.Props.C13Grid",
-                "PyYetiVerif.Props.C13Cord", "PyYetiVerif.Props.C13DmigX", "PyYetiVerif.Props.C13Fmt", "PyYetiVerif.Props.C13Multi", "PyYetiVerif.Props.C13Values", "PyYetiVerif.Props.C13Uset", "PyYetiVerif.Props.C13Set", "PyYetiVerif.Audit.C13"]
+                "PyYetiVerif.Props.C13Cord", "PyYetiVerif.Props.C13DmigX", "PyYetiVerif.Props.C13Fmt", "PyYetiVerif.Props.C13Multi", "PyYetiVerif.Props.C13Values", "PyYetiVerif.Props.C13Uset", "PyYetiVerif.Props.C13Set",
+                "PyYetiVerif.Props.C13ValuesFixed", "PyYetiVerif.Audit.C13"]
 AUDIT_FILE = "PyYetiVerif/Audit/C13.lean"
 THEOREMS = [
     "PyYetiVerif.C13." + n
@@ -70,7 +71,8 @@ THEOREMS = [
         "real_field_reads real_field_accuracy real_field_clean tabled1_roundtrip_values grid_roundtrip_values "
         "cord2_roundtrip_values dmig_roundtrip_values dmig_lines_int_instance "
         "uset_bulk_roundtrip_labels uset_bulk_roundtrip_labels_full set_header_split_fails set_roundtrip_iff_partial "
-        "dmig_field_fits dmig_terms_in_range tabled1_field_overflow_counterexample"
+        "dmig_field_fits dmig_terms_in_range tabled1_field_overflow_counterexample "
+        "tabled1_roundtrip_values_fixed tabled1_fixed_all_doubles tabled1_fixed_eq_current tabled1_fixed_differs_iff"
     ).split()
 ]
 TRUSTED = [
@@ -200,7 +202,11 @@ MANIFEST = {
     "procedure); op2 DMIG. Findings: a NEGATIVE value with a three-digit decimal exponent needs 17 characters in '{:16.9E}' — "
     "F64 wtdmig (repaired by 4411a34: _dmig_field falls back to '{:16.8E}'; modelled, translated, dmig_field_fits; regression "
     "guard in the oracle), F65 wttabled1 default pair format (open: over-long field, the reader returns another number; "
-    "tabled1_field_overflow_counterexample).",
+    "tabled1_field_overflow_counterexample). Candidate fix of F65 (corpus/c13_f65_candidate_fix.diff, NOT applied: the default "
+    "case formatted per value through _dmig_field before vecwrite): its model tabled1LinesFixed is proved to round-trip EVERY "
+    "finite value (tabled1_roundtrip_values_fixed, tabled1_fixed_all_doubles) and to equal the current text wherever that "
+    "fits (tabled1_fixed_eq_current, tabled1_fixed_differs_iff); tied to the patched text by "
+    "corpus/c13_f65_candidate_check.py (evidence corpus/c13_f65_candidate_evidence.json), not by ./check.",
     "technique": "Lean 4 proof (induction over run/line/column/character structure; rational bounds through C12's eParts / "
     "rheDiv lemmas) + Python-ast translator of format strings and layout constants + exact-text differential "
     "correspondence with pyyeti.nastran.bulk / pyyeti.writer writers and readers",
